@@ -30,19 +30,22 @@ variable (o : FOps)
 def archs (h : Handle) : List Arch := h.hdr.archives
 
 /-- ⟦Whisper.baseInterval⟧ : the interval stored in the archive's first slot -/
-def baseInterval (h : Handle) (a : Arch) : R Nat := do
-  let b ← readAt h.view a.offset 4
-  return de32 b
+def baseInterval (h : Handle) (a : Arch) : R Nat :=
+  match readAt h.view a.offset 4 with
+  | .error e => .error e
+  | .ok b => .ok (de32 b)
 
 /-- ⟦Whisper.readPointAt⟧ -/
-def readPointAt (h : Handle) (off : Nat) : R Point := do
-  let b ← readAt h.view off 12
-  return ⟨de32 b, de64 (b.drop 4)⟩
+def readPointAt (h : Handle) (off : Nat) : R Point :=
+  match readAt h.view off 12 with
+  | .error e => .error e
+  | .ok b => .ok ⟨de32 b, de64 (b.drop 4)⟩
 
 /-- ⟦Whisper.putPointAt⟧ -/
-def putPointAt (h : Handle) (p : Point) (off : Nat) : R Handle := do
-  let v ← writeAt h.view off (encPoint p)
-  return { h with view := v }
+def putPointAt (h : Handle) (p : Point) (off : Nat) : R Handle :=
+  match writeAt h.view off (encPoint p) with
+  | .error e => .error e
+  | .ok v => .ok { h with view := v }
 
 /-- offsets `from, from+12, … < until` (the `for off := from; off < until; off += pointSize` loops) -/
 def offsRange (from_ until_ : Nat) : List Nat :=
@@ -50,10 +53,13 @@ def offsRange (from_ until_ : Nat) : List Nat :=
 
 def readPoints (h : Handle) : List Nat → R (List Point)
   | [] => .ok []
-  | off :: offs => do
-    let p ← h.readPointAt off
-    let ps ← readPoints h offs
-    return p :: ps
+  | off :: offs =>
+    match h.readPointAt off with
+    | .error e => .error e
+    | .ok p =>
+      match readPoints h offs with
+      | .error e => .error e
+      | .ok ps => .ok (p :: ps)
 
 /-- ⟦Whisper.GetAllRawUnsortedPoints⟧ (an id outside the list indexes out of range) -/
 def rawPoints (h : Handle) (k : Int) : R (List Point) :=
@@ -157,10 +163,10 @@ def fetchFromArchive (h : Handle) (k : Int) (from_ until_ now : Nat) : R (Option
     | .ok s => .ok (some s)
 
 /-- ⟦Whisper.getPointOffset⟧ -/
-def getPointOffset (h : Handle) (start : Nat) (a : Arch) : R Nat := do
-  let base ← h.baseInterval a
-  if base = 0 then return a.offset
-  return a.pointOffsetAt (a.pointIndex base start)
+def getPointOffset (h : Handle) (start : Nat) (a : Arch) : R Nat :=
+  match h.baseInterval a with
+  | .error e => .error e
+  | .ok base => if base = 0 then .ok a.offset else .ok (a.pointOffsetAt (a.pointIndex base start))
 
 /-- ⟦filterValidValues⟧ -/
 def filterValid (step : Int) : Nat → List Point → List Val
@@ -199,50 +205,60 @@ def timesToPropagate (a : Arch) : List Nat → List Nat → List Nat
 
 /-- one iteration of the loop in ⟦Whisper.propagate⟧; returns the handle and whether the
     slot was stored. -/
-def propagateOne (h : Handle) (a aHigh : Arch) (t : Nat) : R (Handle × Bool) := do
-  let untilI := tsAdd t a.step
-  let pts ← h.fetchRawPoints aHigh t untilI
-  let vals := filterValid aHigh.step (aHigh.intervalForWrite t) pts
-  if vals.length = 0 then return (h, false)
-  if o.xffLess vals.length pts.length h.hdr.xff then return (h, false)
-  let v ← aggregate o h.hdr.agg vals
-  let off ← h.getPointOffset t a
-  let h ← h.putPointAt ⟨t, v⟩ off
-  return (h, true)
+def propagateOne (h : Handle) (a aHigh : Arch) (t : Nat) : R (Handle × Bool) :=
+  match h.fetchRawPoints aHigh t (tsAdd t a.step) with
+  | .error e => .error e
+  | .ok pts =>
+    let vals := filterValid aHigh.step (aHigh.intervalForWrite t) pts
+    if vals.length = 0 then .ok (h, false) else
+    if o.xffLess vals.length pts.length h.hdr.xff then .ok (h, false) else
+    match aggregate o h.hdr.agg vals with
+    | .error e => .error e
+    | .ok v =>
+      match h.getPointOffset t a with
+      | .error e => .error e
+      | .ok off =>
+        match h.putPointAt ⟨t, v⟩ off with
+        | .error e => .error e
+        | .ok h' => .ok (h', true)
 
 /-- ⟦Whisper.propagate⟧ : returns the times to propagate further (reversed accumulator). -/
 def propagateLoop (h : Handle) (a aHigh : Arch) (aLow : Option Arch) :
     List Nat → List Nat → R (Handle × List Nat)
   | acc, [] => .ok (h, acc.reverse)
-  | acc, t :: ts => do
-    let (h, stored) ← propagateOne o h a aHigh t
-    let acc :=
-      if stored then
-        match aLow with
-        | none => acc
-        | some l =>
-          let tLow := l.intervalForWrite t
-          match acc with
-          | last :: _ => if last = tLow then acc else tLow :: acc
-          | [] => [tLow]
-      else acc
-    propagateLoop h a aHigh aLow acc ts
+  | acc, t :: ts =>
+    match propagateOne o h a aHigh t with
+    | .error e => .error e
+    | .ok (h, stored) =>
+      let acc :=
+        if stored then
+          match aLow with
+          | none => acc
+          | some l =>
+            let tLow := l.intervalForWrite t
+            match acc with
+            | last :: _ => if last = tLow then acc else tLow :: acc
+            | [] => [tLow]
+        else acc
+      propagateLoop h a aHigh aLow acc ts
 
 def propagate (h : Handle) (k : Nat) (ts : List Nat) : R (Handle × List Nat) :=
   if ts.length = 0 then .ok (h, []) else
   match h.archs[k]?, h.archs[k - 1]? with
-  | some a, some aHigh => do
-    let _ ← h.baseInterval a        -- read first; an I/O error surfaces here
-    propagateLoop o h a aHigh h.archs[k + 1]? [] ts
+  | some a, some aHigh =>
+    match h.baseInterval a with       -- read first; an I/O error surfaces here
+    | .error e => .error e
+    | .ok _ => propagateLoop o h a aHigh h.archs[k + 1]? [] ts
   | _, _ => .error (.panic "index out of range")
 
 /-- ⟦Whisper.propagateChain⟧ : `fuel` is the number of archives (the Go loop is bounded by it). -/
 def propagateChainLoop : Nat → Handle → Nat → List Nat → R Handle
   | 0, h, _, _ => .ok h
   | fuel+1, h, low, ts =>
-    if low < h.archs.length ∧ ts.length > 0 then do
-      let (h, ts) ← propagate o h low ts
-      propagateChainLoop fuel h (low + 1) ts
+    if low < h.archs.length ∧ ts.length > 0 then
+      match propagate o h low ts with
+      | .error e => .error e
+      | .ok (h, ts) => propagateChainLoop fuel h (low + 1) ts
     else .ok h
 
 def propagateChain (h : Handle) (k : Nat) (aligned : List Point) : R Handle :=
@@ -254,18 +270,20 @@ def propagateChain (h : Handle) (k : Nat) (aligned : List Point) : R Handle :=
     propagateChainLoop o h.archs.length h low ts
 
 /-- ⟦Whisper.UpdatePointForArchive⟧ -/
-def updatePoint (h : Handle) (k : Int) (t : Nat) (v : Val) (now : Nat) : R Handle := do
-  if t ≤ tsAdd now (- h.hdr.maxRet) ∨ now < t then throw (.err .notCovered)
+def updatePoint (h : Handle) (k : Int) (t : Nat) (v : Val) (now : Nat) : R Handle :=
+  if t ≤ tsAdd now (- h.hdr.maxRet) ∨ now < t then .error (.err .notCovered) else
   let id : Int := if k = -1 then (h.findBestArchive t now : Int) else k
-  if id < 0 then throw (.panic "index out of range")
+  if id < 0 then .error (.panic "index out of range") else
   match h.archs[id.toNat]? with
-  | none => throw (.panic "index out of range")
+  | none => .error (.panic "index out of range")
   | some a =>
     let myI := a.intervalForWrite t
-    let off ← h.getPointOffset myI a
-    let pt : Point := ⟨myI, v⟩
-    let h ← h.putPointAt pt off
-    propagateChain o h id.toNat [pt]
+    match h.getPointOffset myI a with
+    | .error e => .error e
+    | .ok off =>
+      match h.putPointAt ⟨myI, v⟩ off with
+      | .error e => .error e
+      | .ok h' => propagateChain o h' id.toNat [⟨myI, v⟩]
 
 /-- `sort.Stable(Points(points))` modelled as insertion sort by time (stable). -/
 def insertByTime (p : Point) : List Point → List Point
@@ -302,24 +320,26 @@ def alignPoints (a : Arch) (ps : List Point) : List Point :=
 
 def putPoints (h : Handle) (a : Arch) (base : Nat) : List Point → R Handle
   | [] => .ok h
-  | p :: ps => do
-    let h ← h.putPointAt p (a.pointOffsetAt (a.pointIndex base p.t))
-    putPoints h a base ps
+  | p :: ps =>
+    match h.putPointAt p (a.pointOffsetAt (a.pointIndex base p.t)) with
+    | .error e => .error e
+    | .ok h' => putPoints h' a base ps
 
 /-- ⟦Whisper.archiveUpdateMany⟧ -/
 def archiveUpdateMany (h : Handle) (ps : List Point) (k : Nat) : R Handle :=
   match h.archs[k]? with
   | none => .error (.panic "index out of range")
-  | some a => do
+  | some a =>
     let aligned := alignPoints a ps
-    let base ← h.baseInterval a
-    let base ← if base = 0 then
-        match aligned with
-        | p :: _ => pure p.t
-        | [] => throw (.panic "index out of range")
-      else pure base
-    let h ← putPoints h a base aligned
-    propagateChain o h k aligned
+    match h.baseInterval a with
+    | .error e => .error e
+    | .ok base0 =>
+      match (if base0 = 0 then aligned.head?.map (·.t) else some base0) with
+      | none => .error (.panic "index out of range")
+      | some base =>
+        match putPoints h a base aligned with
+        | .error e => .error e
+        | .ok h' => propagateChain o h' k aligned
 
 /-- ⟦Whisper.UpdatePointsForArchive⟧ -/
 def updateManyLoop (k : Int) (now : Nat) : Handle → List Point → Nat → List Arch → R Handle
@@ -329,9 +349,10 @@ def updateManyLoop (k : Int) (now : Nat) : Handle → List Point → Nat → Lis
     else
       let (cur, rest) := extractPoints ps now a.maxRetention
       if cur.length = 0 then updateManyLoop k now h rest (i + 1) as
-      else do
-        let h ← archiveUpdateMany o h cur i
-        updateManyLoop k now h rest (i + 1) as
+      else
+        match archiveUpdateMany o h cur i with
+        | .error e => .error e
+        | .ok h' => updateManyLoop k now h' rest (i + 1) as
 
 def updateMany (h : Handle) (ps : List Point) (k : Int) (now : Nat) : R Handle :=
   updateManyLoop o k now h (sortByTime ps) 0 h.archs
